@@ -153,3 +153,58 @@ type CSSProp struct {
 	Val  string `json:"val,omitempty"` // constant value
 	E    *Expr  `json:"e,omitempty"`   // or an expression
 }
+
+// TicksInConditionalClass returns the ids of the tick() calls that occur inside class attributes
+// (entry names and KV conditions) nested in a conditional attribute, anywhere in the file.
+func TicksInConditionalClass(f *File) map[string]bool {
+	out := map[string]bool{}
+	var expr func(e *Expr)
+	expr = func(e *Expr) {
+		if e == nil {
+			return
+		}
+		if e.Kind == "tick" {
+			out[e.Str] = true
+		}
+		for i := range e.Args {
+			expr(&e.Args[i])
+		}
+	}
+	var attrs func(as []Attr, inCond bool)
+	attrs = func(as []Attr, inCond bool) {
+		for i := range as {
+			a := &as[i]
+			switch a.Kind {
+			case "cond":
+				attrs(a.Then, true)
+				attrs(a.Else, true)
+			case "class":
+				if inCond {
+					for j := range a.Items {
+						expr(a.Items[j].E)
+						expr(a.Items[j].Cond)
+					}
+				}
+			}
+		}
+	}
+	var walk func(ns []Node)
+	walk = func(ns []Node) {
+		for i := range ns {
+			n := &ns[i]
+			attrs(n.Attrs, false)
+			walk(n.Kids)
+			walk(n.Else)
+			for j := range n.ElseIfs {
+				walk(n.ElseIfs[j].Kids)
+			}
+			for j := range n.Cases {
+				walk(n.Cases[j].Kids)
+			}
+		}
+	}
+	for i := range f.Templates {
+		walk(f.Templates[i].Body)
+	}
+	return out
+}
